@@ -28,15 +28,17 @@ func (a *AtIndex) Decide(w *World, c *Call, index int) FaultKind {
 
 // RandomFaults injects faults with probability Pct% per call until Until calls have been made.
 type RandomFaults struct {
-	Pct     int
-	Kinds   []FaultKind
-	Until   int // stop after this many controller calls (0: never stop) - "once calls succeed again"
-	R       *rand.Rand
-	Crashes int // maximum number of crash faults
-	Hits    int
-	Burst   int // remaining forced faults of a burst
-	perName map[string]int
-	mu      sync.Mutex
+	Pct      int
+	Kinds    []FaultKind
+	Until    int // stop after this many controller calls (0: never stop) - "once calls succeed again"
+	R        *rand.Rand
+	Crashes  int // maximum number of crash faults
+	Hits     int
+	Burst    int // remaining forced faults of a burst
+	ReadPct  int // percent of live GETs by the controllers that fail with a 500 (until Until calls were made)
+	ReadHits int
+	perName  map[string]int
+	mu       sync.Mutex
 }
 
 func (f *RandomFaults) Decide(w *World, c *Call, index int) FaultKind {
@@ -110,4 +112,21 @@ func (o *Outage) Decide(w *World, c *Call, index int) FaultKind {
 		return o.Inner.Decide(w, c, index)
 	}
 	return FNone
+}
+
+// DecideRead decides whether a live GET of a controller fails.
+func (f *RandomFaults) DecideRead(w *World, kind Kind, name string) error {
+	f.mu.Lock()
+	defer f.mu.Unlock()
+	if f.ReadPct <= 0 || (f.Until > 0 && w.CtrlCalls() >= f.Until) || f.ReadHits >= 8 {
+		return nil // faults are finite: at most eight failed reads per case
+	}
+	h := fnv.New32a()
+	h.Write([]byte(name))
+	h.Write([]byte{byte(f.ReadHits), byte(w.CtrlCalls())})
+	if int(h.Sum32()%100) < f.ReadPct {
+		f.ReadHits++
+		return faultErr(&Call{Fault: F500Before, Kind: kind, Name: name})
+	}
+	return nil
 }
